@@ -208,6 +208,14 @@ Definition wr_vis (w : writer) (c : Z) : writer :=
 Definition wr_state (w : writer) (S : Z) : writer :=
   mkWr (w_D w) (w_reg w) (w_name w) (mkSF S (w_D w)) [] 0.
 
+(* the same in its two stages, as a reader on another machine may find them: the state file has been
+   renamed into place (a) but the old hills file is still there; then the hills file is removed and
+   created again (b) *)
+Definition wr_state_a (w : writer) (S : Z) : writer :=
+  mkWr (w_D w) (w_reg w) (w_name w) (mkSF S (w_D w)) (w_file w) (w_vis w).
+Definition wr_state_b (w : writer) : writer :=
+  mkWr (w_D w) (w_reg w) (w_name w) (w_state w) [] 0.
+
 (* setup_output() at the start of a run (first one, restart, new output prefix): new hills file,
    state file, list file, record in the registry *)
 Definition wr_setup (w : writer) (S : Z) (newname : bool) : writer :=
@@ -274,6 +282,8 @@ Inductive pev : Type :=
 | PDeposit (h : hill)                (* writer deposits a hill *)
 | PVis (c : Z)                       (* the first c complete records of the writer's hills file become what a reader sees *)
 | PWState (St : Z)                   (* writer: write_state_to_replicas() at step S *)
+| PWStateA (St : Z)                  (* writer: first half of it (state file renamed, old hills file still there) *)
+| PWStateB                           (* writer: second half (hills file removed and created again) *)
 | PSetup (St : Z) (newname : bool)   (* writer: setup_output() at step S, possibly with a new output prefix *)
 | RShare                             (* reader: replica_share() *)
 | RWState                            (* reader: its own write_state_to_replicas() *)
@@ -287,6 +297,8 @@ Definition pstep (fix1 fix2 : bool) (st : pstate) (e : pev) : pstate :=
   | PDeposit h => (wr_deposit w h, m)
   | PVis c => (wr_vis w c, m)
   | PWState s => (wr_state w s, m)
+  | PWStateA s => (wr_state_a w s, m)
+  | PWStateB => (wr_state_b w, m)
   | PSetup s nn => (wr_setup w s nn, m)
   | RShare => (w, share fix1 fix2 w m)
   | RWState => (w, m_unsync m)
@@ -298,20 +310,32 @@ Definition prun (fix1 fix2 : bool) (es : list pev) (st : pstate) : pstate :=
 
 Definition pinit : pstate := (wr_init, None).
 
-(* the writer-side protocol assumed of a trace (facts about how a walker numbers its own steps):
-   a hill is deposited at a later step than the state file in place;
-   a state file is written at a step not before any hill in it and not before the previous state file. *)
-Definition ev_ok (w : writer) (e : pev) : bool :=
+(* every record of the hills file is later than the state file: false only between the two halves of a
+   state-file rewrite *)
+Definition file_fresh (w : writer) : bool :=
+  forallb (fun h => sf_step (w_state w) <? hit h) (w_file w).
+
+Definition steps_ok (w : writer) (s : Z) : bool :=
+  (sf_step (w_state w) <=? s) && forallb (fun x => hit x <=? s) (w_D w).
+
+(* What is assumed of a trace.  Writer side (facts about how a walker numbers its own steps and orders its own
+   actions): a hill is deposited at a later step than the state file in place; a state file is written at a
+   step not before any hill in it and not before the previous state file; between the two halves of a
+   state-file rewrite the writer does nothing else.  Reader side (strict = true only): the reader does not
+   exchange between the two halves of the peer's state-file rewrite. *)
+Definition ev_ok (strict : bool) (w : writer) (e : pev) : bool :=
   match e with
-  | PDeposit h => sf_step (w_state w) <? hit h
-  | PWState s | PSetup s _ => (sf_step (w_state w) <=? s) && forallb (fun x => hit x <=? s) (w_D w)
+  | PDeposit h => file_fresh w && (sf_step (w_state w) <? hit h)
+  | PWState s | PSetup s _ | PWStateA s => file_fresh w && steps_ok w s
+  | PWStateB => negb (file_fresh w) || match w_file w with [] => true | _ => false end
+  | RShare => negb strict || file_fresh w
   | _ => true
   end.
 
-Fixpoint trace_ok (fix1 fix2 : bool) (es : list pev) (st : pstate) : bool :=
+Fixpoint trace_ok (strict fix1 fix2 : bool) (es : list pev) (st : pstate) : bool :=
   match es with
   | [] => true
-  | e :: tl => ev_ok (fst st) e && trace_ok fix1 fix2 tl (pstep fix1 fix2 st e)
+  | e :: tl => ev_ok strict (fst st) e && trace_ok strict fix1 fix2 tl (pstep fix1 fix2 st e)
   end.
 
 (* l1 is a prefix of l2 *)
